@@ -325,6 +325,9 @@ def main(argv):
         mpf = int(next((a.split('=')[1] for a in argv if a.startswith('--max-per-file=')), '400'))
         equivalent = '--equivalent' in argv
         muts = gen_mutants(props, mpf, equivalent)
+        only_ops = next((a.split('=')[1].split(',') for a in argv if a.startswith('--ops=')), None)
+        if only_ops:
+            muts = [m_ for m_ in muts if m_['op'] in only_ops]
         print(f'{len(muts)} ' + ('behaviour-preserving rewrites' if equivalent else 'mutants'))
         base = tempfile.mkdtemp(prefix='verif_mut_')
         try:
@@ -336,7 +339,7 @@ def main(argv):
         finally:
             shutil.rmtree(base, ignore_errors=True)
         os.makedirs(os.path.join(VERIF, 'notes', 'mutation'), exist_ok=True)
-        out = os.path.join(VERIF, 'notes', 'mutation', datetime.date.today().isoformat() + ('_equivalent' if equivalent else '') + ('_' + '_'.join(props) if props else '') + '.json')
+        out = os.path.join(VERIF, 'notes', 'mutation', datetime.date.today().isoformat() + ('_equivalent' if equivalent else '') + ('_' + '_'.join(only_ops) if only_ops else '') + ('_' + '_'.join(props) if props else '') + '.json')
         for m in muts:
             m.pop('text')
         json.dump(muts, open(out, 'w'), indent=1)
